@@ -40,6 +40,8 @@ pub enum Policy {
     Fork,
     /// zero-tests (one side is the constant 0) are assumed false, everything else forks
     ForkNonZero,
+    /// comparisons that involve an adversarially chosen value fork, all others are assumed false
+    ForkAdv,
 }
 
 #[derive(Clone, Debug)]
@@ -99,6 +101,7 @@ pub struct Stats {
     pub nodes: u64,
     pub worlds_confirmed: u64,
     pub naf_calls: u64,
+    pub normalized_fallbacks: u64,
 }
 
 #[derive(Clone, Debug)]
@@ -166,6 +169,7 @@ pub struct Ctx {
     pub fresh_ctr: u32,
     pub reprs: HashMap<Vec<U>, Vec<u32>>,
     pub dense_ctr: u64,
+    pub adv_atoms: Vec<u32>,
 }
 
 thread_local! {
@@ -222,6 +226,7 @@ pub fn reset(cfg: RunCfg) {
             fresh_ctr: 0,
             reprs: HashMap::new(),
             dense_ctr: 0,
+            adv_atoms: vec![],
             cfg,
         });
         for w in 0..ctx.cfg.n_worlds {
@@ -452,7 +457,7 @@ impl Ctx {
         self.failures.push(Failure { label, detail, model, inconclusive });
     }
 
-    fn record(&mut self, rule: &'static str, label: &str, ok: bool, detail: String) {
+    pub fn record(&mut self, rule: &'static str, label: &str, ok: bool, detail: String) {
         self.stats.obligations += 1;
         if ok {
             self.stats.discharged += 1;
@@ -504,12 +509,23 @@ impl Ctx {
                 }
             }
         }
-        // not valid (some world is a counter-model). Is equality feasible?
+        // not valid (some world is a counter-model). Is equality refuted outright (EX)?
+        let d = self.sub(a, b);
+        if self.refute_by_units(d, false).is_some() {
+            self.stats.decisions_infeasible += 1;
+            self.pc.push(Lit::Ne(a, b));
+            self.decisions.push(Decision { a, b, outcome: Outcome::Infeasible, label });
+            return false;
+        }
         let zero_test = self.is_zero_test(a, b);
         let assume = match self.policy {
             Policy::Assume => true,
             Policy::Fork => false,
             Policy::ForkNonZero => zero_test,
+            Policy::ForkAdv => {
+                let ds = self.deep_support(d);
+                !self.adv_atoms.iter().any(|a| ds.contains(a))
+            }
         };
         if assume {
             self.stats.assumed += 1;
@@ -529,7 +545,6 @@ impl Ctx {
             let k = self.taken.len();
             if k < self.cfg.script.len() { Some(self.cfg.script[k]) } else { None }
         };
-        let d = self.sub(a, b);
         let snapshot = self.snapshot_worlds();
         let feasible = self.try_add_equation(d);
         if !feasible {
@@ -619,6 +634,9 @@ impl Ctx {
     /// (EX) PC ⇒ a ≢ b: the residual is a constant unit multiple of (a product of at most
     /// two) quantities the path condition asserts non-zero; the solver proves that identity.
     pub fn prove_ne(&mut self, a: u32, b: u32, what: &str) -> bool {
+        self.prove_ne_opt(a, b, what, true)
+    }
+    pub fn prove_ne_opt(&mut self, a: u32, b: u32, what: &str, last_resort: bool) -> bool {
         let r = self.sub(a, b);
         if let Some(c) = self.const_of(r) {
             let ok = !c.is_zero();
@@ -634,60 +652,15 @@ impl Ctx {
             self.fail(what, det, false);
             return false;
         }
-        // candidates: Ne literals of the path condition
-        let lits: Vec<u32> = self
-            .pc
-            .clone()
-            .iter()
-            .filter_map(|l| if let Lit::Ne(x, y) = l { Some(self.sub(*x, *y)) } else { None })
-            .collect();
-        let nw = self.worlds.len();
-        let rv: Vec<U> = (0..nw).map(|w| self.eval(w, r)).collect();
-        let lv: Vec<Vec<U>> = lits.iter().map(|t| (0..nw).map(|w| self.eval(w, *t)).collect()).collect();
-        let try_unit = |me: &mut Ctx, prod_vals: &[U]| -> Option<U> {
-            let inv0 = me.m.inv(&prod_vals[0])?;
-            let c = me.m.mul(&rv[0], &inv0);
-            for w in 1..nw {
-                if me.m.mul(&c, &prod_vals[w]) != rv[w] {
-                    return None;
-                }
-            }
-            if c.is_zero() { None } else { Some(c) }
-        };
-        let mut found: Option<(U, Vec<u32>)> = None;
-        'search: {
-            for (i, t) in lits.iter().enumerate() {
-                if let Some(c) = try_unit(self, &lv[i]) {
-                    found = Some((c, vec![*t]));
-                    break 'search;
-                }
-            }
-            for i in 0..lits.len() {
-                for j in i..lits.len() {
-                    let pv: Vec<U> = (0..nw).map(|w| self.m.mul(&lv[i][w], &lv[j][w])).collect();
-                    if let Some(c) = try_unit(self, &pv) {
-                        found = Some((c, vec![lits[i], lits[j]]));
-                        break 'search;
-                    }
-                }
-            }
+        if let Some(det) = self.refute_by_units(r, true) {
+            self.record("EX", what, true, det);
+            return true;
         }
-        if let Some((c, ts)) = found {
-            let mut prod = self.cst(c);
-            for t in &ts {
-                prod = self.mul(prod, *t);
-            }
-            let cinv = self.m.inv(&c).expect("unit");
-            assert!(self.m.mul(&c, &cinv) == U::ONE);
-            if let Some(true) = self.z3_valid_eq(r, prod, self.cfg.final_timeout_ms) {
-                let det = format!(
-                    "residual ≡ 0x{} · {} with each factor ≢ 0 in PC (q prime ⇒ no zero divisors)",
-                    c.to_hex(),
-                    ts.iter().map(|t| self.describe(*t, 2)).collect::<Vec<_>>().join(" · ")
-                );
-                self.record("EX", what, true, det);
-                return true;
-            }
+        if !last_resort {
+            let det = format!("could not show {} ≢ 0 from the path condition", self.describe(r, 3));
+            self.record("EX", what, false, det.clone());
+            self.fail(what, det, false);
+            return false;
         }
         // last resort: ask the solver directly
         match self.z3_sat_eq(a, b, self.cfg.final_timeout_ms) {
@@ -708,10 +681,97 @@ impl Ctx {
         }
     }
 
+
+    /// Try to show `r ≢ 0` under PC: find a constant unit c and at most two path-condition
+    /// disequalities t_i ≢ 0 with r ≡ c·Πt_i (candidates from the worlds, identity proved by
+    /// the solver). Sound because q is prime. Returns the justification.
+    pub fn refute_by_units(&mut self, r: u32, pairs: bool) -> Option<String> {
+        let mut lits: Vec<u32> = self
+            .pc
+            .clone()
+            .iter()
+            .filter_map(|l| if let Lit::Ne(x, y) = l { Some(self.sub(*x, *y)) } else { None })
+            .collect();
+        let n_pc = lits.len();
+        if pairs {
+            // final obligations may additionally use "a hash output is non-zero" (an event of
+            // probability 1/q over the hash function; logged as an assumption when used)
+            for a in self.support(r).iter() {
+                if matches!(self.nodes[*a as usize], Node::Uf(..)) && !lits.contains(a) {
+                    lits.push(*a);
+                }
+            }
+        }
+        let nw = self.worlds.len();
+        let rv: Vec<U> = (0..nw).map(|w| self.eval(w, r)).collect();
+        if rv.iter().any(|v| v.is_zero()) {
+            return None;
+        }
+        let lv: Vec<Vec<U>> = lits.iter().map(|t| (0..nw).map(|w| self.eval(w, *t)).collect()).collect();
+        let try_unit = |me: &mut Ctx, prod_vals: &[U]| -> Option<U> {
+            let inv0 = me.m.inv(&prod_vals[0])?;
+            let c = me.m.mul(&rv[0], &inv0);
+            for w in 1..nw {
+                if me.m.mul(&c, &prod_vals[w]) != rv[w] {
+                    return None;
+                }
+            }
+            if c.is_zero() { None } else { Some(c) }
+        };
+        let mut found: Vec<(U, Vec<u32>)> = vec![];
+        // the residual may simply be a non-zero constant in disguise
+        if rv.iter().all(|v| *v == rv[0]) {
+            found.push((rv[0], vec![]));
+        }
+        for (i, t) in lits.iter().enumerate() {
+            if let Some(c) = try_unit(self, &lv[i]) {
+                found.push((c, vec![*t]));
+            }
+        }
+        if found.is_empty() && pairs {
+            'pairs: for i in 0..lits.len() {
+                for j in i..lits.len() {
+                    let pv: Vec<U> = (0..nw).map(|w| self.m.mul(&lv[i][w], &lv[j][w])).collect();
+                    if let Some(c) = try_unit(self, &pv) {
+                        found.push((c, vec![lits[i], lits[j]]));
+                        break 'pairs;
+                    }
+                }
+            }
+        }
+        for (c, ts) in found {
+            let mut prod = self.cst(c);
+            for t in &ts {
+                prod = self.mul(prod, *t);
+            }
+            let cinv = self.m.inv(&c).expect("unit");
+            assert!(self.m.mul(&c, &cinv) == U::ONE);
+            if let Some(true) = self.z3_valid_eq(r, prod, self.cfg.final_timeout_ms) {
+                for t in &ts {
+                    if lits.iter().position(|x| x == t).map(|i| i >= n_pc).unwrap_or(false) {
+                        let a = format!("[hash output non-zero] {} ≢ 0", self.describe(*t, 1));
+                        if !self.assumptions.contains(&a) {
+                            self.assumptions.push(a);
+                        }
+                    }
+                }
+                return Some(format!(
+                    "residual ≡ 0x{} · {} with each factor ≢ 0 in PC (q prime ⇒ no zero divisors)",
+                    c.to_hex(),
+                    ts.iter().map(|t| self.describe(*t, 2)).collect::<Vec<_>>().join(" · ")
+                ));
+            }
+        }
+        None
+    }
+
     /// (GR) the residual is affine in a fresh atom (a node with id ≥ `fresh_from`, not
     /// occurring anywhere else) with a slope the path condition forces non-zero.
     /// Returns the atom used.
     pub fn prove_gr(&mut self, resid: u32, fresh_from: u32, adv: &[u32], what: &str) -> Option<u32> {
+        self.prove_gr_d(resid, fresh_from, adv, what, 0)
+    }
+    fn prove_gr_d(&mut self, resid: u32, fresh_from: u32, adv: &[u32], what: &str, depth: u32) -> Option<u32> {
         let deep = self.deep_support(resid);
         let adv_in: Vec<u32> = deep.iter().copied().filter(|a| adv.contains(a)).collect();
         let cands: Vec<u32> = deep.into_iter().filter(|a| *a >= fresh_from && !adv.contains(a)).rev().collect();
@@ -730,6 +790,9 @@ impl Ctx {
                     }
                 }
                 Node::Uf(_, args) => {
+                    if depth > 0 {
+                        continue; // nested level: honest randomness only
+                    }
                     let mut inside = BTreeSet::new();
                     for a in args {
                         inside.extend(self.deep_support(a));
@@ -740,6 +803,8 @@ impl Ctx {
                 }
                 _ => continue,
             }
+            let dbg = std::env::var("SYMFROST_DEBUG").is_ok();
+            if dbg { eprintln!("GR try atom {}", self.describe(v, 1)); }
             let two = self.cst(U::from_u64(2));
             let r0 = self.subst(resid, v, 0);
             let r1 = self.subst(resid, v, 1);
@@ -747,19 +812,38 @@ impl Ctx {
             let lhs = self.add(r2, r0);
             let rhs = self.add(r1, r1);
             if self.differs_in_some_world(lhs, rhs) {
+                if dbg { eprintln!("  not affine"); }
                 continue;
             }
             let slope = self.sub(r1, r0);
             if !self.differs_in_some_world(slope, 0) {
+                if dbg { eprintln!("  zero slope"); }
                 continue;
             }
+            if dbg { eprintln!("  slope {}", self.describe(slope, 4)); }
             // solver: affine, and slope non-zero
             if self.z3_valid_eq(lhs, rhs, self.cfg.final_timeout_ms) != Some(true) {
                 continue;
             }
             let n_before = self.obligations.len();
             let f_before = self.failures.len();
-            let ok = self.prove_ne(slope, 0, &format!("{what} [slope in {}]", self.describe(v, 1)));
+            let st_before = (self.stats.obligations, self.stats.discharged, self.stats.by_rule.clone());
+            let mut ok = self.prove_ne_opt(slope, 0, &format!("{what} [slope in {}]", self.describe(v, 1)), false);
+            if !ok && depth == 0 {
+                // nested: the slope itself is a generic function of honest randomness
+                self.obligations.truncate(n_before);
+                self.failures.truncate(f_before);
+                self.stats.obligations = st_before.0;
+                self.stats.discharged = st_before.1;
+                self.stats.by_rule = st_before.2.clone();
+                if let Some(v2) = self.prove_gr_d(slope, fresh_from, adv, &format!("{what} [slope in {}]", self.describe(v, 1)), 1) {
+                    ok = true;
+                    let a = format!("[generic honest randomness] slope of the residual in {} is non-zero unless {} takes one particular value", self.describe(v, 1), self.describe(v2, 1));
+                    if !self.assumptions.contains(&a) && self.assumptions.len() < 200 {
+                        self.assumptions.push(a);
+                    }
+                }
+            }
             if ok {
                 let det = format!(
                     "residual affine in fresh {} with slope {} ≢ 0: exactly one value of it is accepted",
@@ -772,6 +856,9 @@ impl Ctx {
             // roll back the failed attempt's bookkeeping; try another atom
             self.obligations.truncate(n_before);
             self.failures.truncate(f_before);
+            self.stats.obligations = st_before.0;
+            self.stats.discharged = st_before.1;
+            self.stats.by_rule = st_before.2;
         }
         let det = format!(
             "no fresh atom (id ≥ {fresh_from}) in which residual {} is affine with provably non-zero slope",
